@@ -246,6 +246,27 @@ def x_grid(rng, a, b, util):
 
 # ---------------------------------------------------------------- the run
 
+
+def kept_results(rep, name, fn, args1, args2, inp):
+    """results kept across calls: what a call returned belongs to the caller -- a second call (same broadcast shape, other values) must
+    not change the arrays returned by the first (`lo1, hi1 = f(a, b, c1); lo2, hi2 = f(a, b, c2); use(lo1)`)"""
+    try:
+        r1 = fn(*args1)
+        r1 = r1 if isinstance(r1, tuple) else (r1,)
+        snap = [np.array(x, copy=True) for x in r1]
+        fn(*args2)
+    except Exception:  # noqa: BLE001   (raising on valid arguments is judged where the call is made for its values)
+        return
+    rep.count("results_kept_across_calls:" + name)
+    rep.case(("kept", name, str(inp)[:80]), nontrivial=False)
+    for k, (x, s0) in enumerate(zip(r1, snap)):
+        if not np.array_equal(np.asarray(x), s0, equal_nan=True):
+            rep.violate(what=f"{name}: the array returned by one call changed when the function was called again with arguments of the same shape "
+                             "(a returned array belongs to the caller)",
+                        input=dict(inp, returned_index=k), expected=[float(v) for v in np.ravel(s0)[:6]], observed=[float(v) for v in np.ravel(x)[:6]],
+                        call=f"r1 = {name}(...); r2 = {name}(... other values, same shape ...); r1")
+            return
+
 def run(seed, tier, replay=None):
     _KEYED.clear()
     from opda import utils as util
@@ -327,6 +348,12 @@ def run(seed, tier, replay=None):
                 rep.violate(what="beta_highest_density_interval does not broadcast", input=dict(a=a, b=b, coverage=covs),
                             call="beta_highest_density_interval")
                 continue
+            if len(covs) >= 2:
+                other = np.clip(1.0 - 0.5 * ca, 0.0, 1.0)
+                kept_results(rep, "beta_highest_density_interval", util.beta_highest_density_interval, (a, b, ca), (a, b, other), dict(a=a, b=b, coverage=covs))
+                kept_results(rep, "beta_equal_tailed_interval", util.beta_equal_tailed_interval, (a, b, ca), (a, b, other), dict(a=a, b=b, coverage=covs))
+                kept_results(rep, "beta_highest_density_coverage", util.beta_highest_density_coverage, (a, b, xa), (a, b, xa[::-1].copy()), dict(a=a, b=b, x=xs))
+                kept_results(rep, "beta_equal_tailed_coverage", util.beta_equal_tailed_coverage, (a, b, xa), (a, b, xa[::-1].copy()), dict(a=a, b=b, x=xs))
             for c, x, y in zip(covs, hx, hy):
                 x, y = float(x), float(y)
                 call = f"beta_highest_density_interval({a}, {b}, np.array({covs!r}))  # element with coverage {c!r}"
